@@ -67,6 +67,7 @@ type CheckCtx struct {
 	capped   bool
 	known    []Known
 	harnessNondet int
+	harnessErrs   int
 }
 
 type scnStat struct {
@@ -109,34 +110,60 @@ func (c *CheckCtx) addViol(v Violation) {
 	}
 }
 
-// crashSig turns a worker's dying words into a stable signature.
+// crashSig turns a worker's dying words into a stable signature. Only the panicking
+// goroutine (the first block after the panic line) is considered; a panic raised by
+// the harness itself is reported as such and never attributed to the library.
 func crashSig(stderr string) (sig, msg string) {
 	lines := strings.Split(stderr, "\n")
-	kind := "worker-died"
-	first := ""
 	for i, l := range lines {
-		if strings.HasPrefix(l, "panic:") || strings.HasPrefix(l, "fatal error:") {
-			first = strings.TrimSpace(l)
-			kind = "panic"
-			// innermost library frame after this line
-			for _, m := range lines[i:] {
-				if j := strings.Index(m, leaderPkg); j >= 0 && !strings.HasPrefix(m, "created by") && !strings.HasPrefix(m, "\t") {
-					fn := m[j+len(leaderPkg):]
-					if k := strings.LastIndex(fn, "("); k > 0 {
-						fn = fn[:k]
-					}
-					return "crash/" + kind + "/" + fn, first + " in " + fn
-				}
-			}
-			break
+		if !strings.HasPrefix(l, "panic:") && !strings.HasPrefix(l, "fatal error:") {
+			continue
 		}
+		first := strings.TrimSpace(l)
+		if strings.Contains(first, "harness:") {
+			return "harness-bug", first
+		}
+		// frames of the first goroutine block
+		inBlock := false
+		for _, m := range lines[i+1:] {
+			if strings.HasPrefix(m, "goroutine ") {
+				if inBlock {
+					break
+				}
+				inBlock = true
+				continue
+			}
+			if !inBlock || strings.HasPrefix(m, "\t") || strings.HasPrefix(m, "created by") || m == "" {
+				if inBlock && m == "" {
+					break
+				}
+				continue
+			}
+			if strings.HasPrefix(m, "runtime.") || strings.HasPrefix(m, "panic(") || strings.HasPrefix(m, "testing.") || strings.HasPrefix(m, "internal/") || strings.HasPrefix(m, "sync.") {
+				continue
+			}
+			if strings.Contains(m, "verifshim/") {
+				continue // shim lock/atomic called by the library: attribute to the caller
+			}
+			if strings.Contains(m, "verif/harness.") {
+				return "harness-bug", first + " in " + m
+			}
+			if j := strings.Index(m, leaderPkg); j >= 0 {
+				fn := m[j+len(leaderPkg):]
+				if k := strings.LastIndex(fn, "("); k > 0 {
+					fn = fn[:k]
+				}
+				return "crash/panic/" + fn, first + " in " + fn
+			}
+			return "crash/panic/other", first + " in " + m
+		}
+		return "crash/panic", first
 	}
-	if first == "" && len(stderr) > 300 {
-		first = stderr[len(stderr)-300:]
-	} else if first == "" {
-		first = stderr
+	tail := stderr
+	if len(tail) > 300 {
+		tail = tail[len(tail)-300:]
 	}
-	return "crash/" + kind, first
+	return "crash/worker-died", tail
 }
 
 // RunCheck is the entry point of `check <prop>`.
@@ -259,6 +286,16 @@ func (c *CheckCtx) explore(items []PlanItem) {
 	p := c.newPool()
 	p.onCrash = func(j *Job, prefix []string, stderr string) {
 		sig, msg := crashSig(stderr)
+		if sig == "harness-bug" || sig == "crash/worker-died" {
+			c.mu.Lock()
+			c.harnessErrs++
+			if c.harnessErrs <= 3 {
+				fmt.Fprintf(os.Stderr, "check: HARNESS ERROR (not a property violation) in %s after %v: %s\n", j.Scn.Name, prefix, msg)
+			}
+			c.capped = true
+			c.mu.Unlock()
+			return
+		}
 		c.addViol(Violation{Prop: c.Prop, Sig: sig, Msg: "worker process died: " + msg, Scn: j.Scn.Name, Chosen: prefix})
 		c.mu.Lock()
 		c.execs++
@@ -504,6 +541,7 @@ func (c *CheckCtx) writeEvidence(pd *propDef, nviol int, vlist []map[string]any)
 		cov["violations_detail"] = vlist
 	}
 	cov["harness_nondeterminism"] = c.harnessNondet
+	cov["harness_errors"] = c.harnessErrs
 	ev := map[string]any{
 		"property_id": c.Prop,
 		"tier":        c.Tier,
